@@ -2,15 +2,8 @@
 # compares a ctest junit file with /root/.vp/BASELINE.json stable_pass (623 tests)
 import sys, json, xml.etree.ElementTree as ET, subprocess, glob, os, re
 base = set(json.load(open('/root/.vp/BASELINE.json'))['stable_pass'])
-sys.path.insert(0, '/w/lib')
 junit = sys.argv[1]
 passed, failed = set(), set()
-# ctest junit has one testcase per ctest test (binary); the baseline counts gtest cases: use the parser if available
-try:
-    import parse_tests
-    print('parser available')
-except Exception as e:
-    pass
 t = ET.parse(junit).getroot()
 for tc in t.iter('testcase'):
     name = tc.get('name'); ok = tc.find('failure') is None and tc.get('status', 'run') != 'fail'
